@@ -253,7 +253,7 @@ def ob_gate(opi):
 
 
 # ---------------------------------------------------------------- cfg()
-NAMEA = 'alnyot_'
+NAMEA = 'alnyot_cfg'      # c f g: the letters of the cfg( wrapper itself
 
 
 def gen_cfg(depth, tag='e', lite=False, top=None):
